@@ -281,6 +281,12 @@ def check_C12(tier, replay):
     for k, kind in enumerate(["Newest", "Starve", "PreferSend"] if quick else ej.POLICIES):
         c = ej.and_chain(2, 1001)
         jobs.append(ej.job(f"sch.big.{k}", c, ej.rand_inputs(rng, c), k % 2, [0, 1], cap=1, pol=ej.policy(rng, 2, kind)))
+    # a wide circuit (more than 1024 registers: the per-register vectors of the online phase get long), every party an
+    # output party, 1-slot channels
+    for n in (2,) if quick else (2, 3):
+        c = ej.wide_circuit(n)
+        for k, kind in enumerate(["Oldest", "Newest", "Random"] if quick else ej.POLICIES):
+            jobs.append(ej.job(f"sch.wide.n{n}.{k}", c, ej.rand_inputs(rng, c), k % n, list(range(n)), cap=1, pol=ej.policy(rng, n, kind)))
     # (2) schedules enumerated by TLC on the spec (real constants) replayed on the code
     nsched = 0
     targets = [(2, ej.fixed_small(2)[1], 1, [0, 1], 1, 25 if quick else 200),
